@@ -51,7 +51,7 @@ type DeepVal<'a> = exmex::DeepEx<'a, exmex::Val<i32, f64>, exmex::ValOpsFactory<
 
 /// route "flat": parse_val(text).partial(k);  route "deep": DeepEx::parse(text).partial(k) converted to the flat form
 /// (the rules see whole nesting levels of the deep form instead of one operator per level)
-fn run(text: &str, k: usize, route: &str) -> Value {
+fn run(text: &str, k: usize, route: &str, point: &[(String, i64, i64)]) -> Value {
     let r = guarded(|| -> ExResult<Value> {
         let e = parse_val::<i32, f64>(text)?;
         let vars: Vec<Value> = e.var_names().iter().map(|v| cps(v)).collect();
@@ -59,7 +59,7 @@ fn run(text: &str, k: usize, route: &str) -> Value {
             let text: &'static str = Box::leak(text.to_string().into_boxed_str());
             FlatEx::from_deepex(DeepVal::parse(text)?.partial(k)?)?
         } else {
-            e.partial(k)?
+            e.clone().partial(k)?
         };
         let mut dump: Value = serde_json::from_str(&d.verif_dump()).map_err(|e| exmex::ExError::new(&format!("dump: {e}")))?;
         // literals: Debug text -> descriptor; indices -> 1-based
@@ -78,7 +78,29 @@ fn run(text: &str, k: usize, route: &str) -> Value {
         }
         dump["prio_indices"] = Value::Array(dump["prio_indices"].as_array().unwrap().iter().map(|x| json!(x.as_u64().unwrap() + 1)).collect());
         let dvars: Vec<Value> = d.var_names().iter().map(|v| cps(v)).collect();
-        Ok(json!({"outcome": "ok", "vars": vars, "dvars": dvars, "nodes": dump["nodes"], "ops": dump["ops"], "prio": dump["prio_indices"]}))
+        // kind of the value of the original and of the derivative at the point, with the coordinates passed as floats and with
+        // the integer-valued ones passed as integers ("integers and floats mixed")
+        let kind = |x: Result<exmex::ExResult<exmex::Val<i32, f64>>, String>| -> &'static str {
+            match x {
+                Err(_) => "panic",
+                Ok(Err(_)) => "evalerr",
+                Ok(Ok(exmex::Val::Int(_))) => "int",
+                Ok(Ok(exmex::Val::Float(_))) => "float",
+                Ok(Ok(exmex::Val::Bool(_))) => "bool",
+                Ok(Ok(exmex::Val::Array(_))) => "array",
+                Ok(Ok(exmex::Val::None)) => "none",
+                Ok(Ok(exmex::Val::Error(_))) => "err",
+            }
+        };
+        let coords = |names: &[String], ints: bool| -> Vec<exmex::Val<i32, f64>> {
+            names.iter().map(|n| {
+                let c = point.iter().find(|p| &p.0 == n).map(|p| (p.1, p.2)).unwrap_or((1, 1));
+                if ints && c.1 == 1 { exmex::Val::Int(c.0 as i32) } else { exmex::Val::Float(c.0 as f64 / c.1 as f64) }
+            }).collect()
+        };
+        let at = json!({"orig_float": kind(guarded(|| e.eval(&coords(e.var_names(), false)))), "orig_int": kind(guarded(|| e.eval(&coords(e.var_names(), true)))),
+                        "der_float": kind(guarded(|| d.eval(&coords(d.var_names(), false)))), "der_int": kind(guarded(|| d.eval(&coords(d.var_names(), true))))});
+        Ok(json!({"outcome": "ok", "vars": vars, "dvars": dvars, "nodes": dump["nodes"], "ops": dump["ops"], "prio": dump["prio_indices"], "at": at}))
     });
     match r {
         Err(_) => json!({"outcome": "panic"}),
@@ -103,11 +125,12 @@ pub fn main(args: &[String]) -> i32 {
         n += 1;
         let text = uncps(&rec["text"]);
         let nk = rec["nvars"].as_u64().unwrap_or(1) as usize;
+        let point: Vec<(String, i64, i64)> = rec["point"].as_array().map(|a| a.iter().map(|p| (uncps(&p[0]), p[1].as_i64().unwrap_or(0), p[2].as_i64().unwrap_or(1))).collect()).unwrap_or_default();
         let mut results = vec![];
         for route in ["flat", "deep"] {
             for k in 0..nk {
                 runs += 1;
-                let mut r = run(&text, k, route);
+                let mut r = run(&text, k, route, &point);
                 r["k"] = json!(k + 1);
                 r["route"] = json!(route);
                 results.push(r);
